@@ -10,6 +10,7 @@ import (
 	"fmt"
 	"os"
 	"regexp"
+	"runtime/debug"
 	"sort"
 	"strings"
 	"sync"
@@ -491,6 +492,7 @@ func fatal(a ...any) {
 func TestCheck(t *testing.T) {
 	r := vk.Start("C06", "model_checking", 170*time.Second, 24*time.Minute)
 	defer vk.CleanScratch()
+	debug.SetGCPercent(800) // thousands of short-lived replicas: trade memory for collector time
 	if r.Replay != "" {
 		replay(r)
 		return
